@@ -148,6 +148,9 @@ class Interval:
     def inverse(self) -> "Interval":
         """Inverse of an interval."""
         from integral.poly import normalize_constant
+        if eval_expr(self.start) < 0 and eval_expr(self.end) > 0:
+            # Zero lies inside: 1 / x takes arbitrarily large values of both signs
+            return Interval.open(expr.NEG_INF, expr.POS_INF)
         if self.end == expr.POS_INF:
             start = expr.Const(0)
             left_open = True
